@@ -439,7 +439,6 @@ func nilIffNoDeprecation(h *ssa.Function) bool {
 	return n > 0
 }
 
-
 // c16Stateless: what introspection reports is a function of the schema alone.  Package introspection keeps no package-level
 // state that is written while serving: a process-wide cache of wrapped fields/types would be shared by every request (and every
 // schema) and any in-place filtering of what it holds — dropping deprecated entries for one listing — changes what later
